@@ -1123,6 +1123,9 @@ def alternatives(body, e, limit=64, _conds=()):
             # `Variant` is never taken for a value built as `Other`
             if xs[0] == 'aggr' and '::' in xs[1] and xs[1].rsplit('::', 1)[1] != str(e[2]) and xs[1].rsplit('::', 1)[0].rsplit('::', 1)[-1] in ('Option', 'Result') :
                 continue
+            # `x?` hands the residual back through from_residual: that value is always None / Err, never the Some / Ok projected here
+            if xs[0] == 'call' and xs[1].endswith('::from_residual') and str(e[2]) in ('Some', 'Ok'):
+                continue
             out.append((simplify_downcast(('downcast', x, e[2])), c))
         return out
     if k == 'cast':
